@@ -200,7 +200,8 @@ def analyse_skeleton(I: Interp, pattern: Any, root_role: str = "instr") -> List[
         doc = {"pattern": pattern}
         docv = lift_skeleton(I, doc)
         I.run.user["docv"] = docv
-        self_obj = Obj(y2r, {"loaded_file": docv, "macros_from_terminal_filepath": NONE})
+        from .models import new_yaml2regex
+        self_obj = new_yaml2regex(I, docv)
         m1 = y2r.find_method("_get_pattern")
         if m1 is None:
             raise AnalysisError("anchor Yaml2Regex._get_pattern not found")
